@@ -22,7 +22,9 @@
 //!     at an error item — until the first `None`: number of items, their classes run-length encoded (`o2e1` = two Ok
 //!     items, then one Err; `-` = none), fnv over (path 00 content 01 | 02 for an Err) of all of them;
 //!     `all=runaway` when more than (header files + 16) items came out;
-//!     `err-build`, `err-write`, `err-parse`, `err-files` when an earlier step failed.
+//!     `err-build`, `err-write`, `err-parse`, `err-files` when an earlier step failed;
+//!     `mem-differs <observation>`: `files` iterates BOTH the un-reparsed `Package` value `build()` returned and its written and
+//!     re-parsed form; this is the answer (with what the in-memory value gave) when the two observations are not the same.
 use crate::common::*;
 use crate::pkggen::*;
 use sha2::Digest;
@@ -95,7 +97,9 @@ pub fn drain_all(pkg: &rpm::Package) -> String {
     // the standard adapters are repeated `next()` calls by definition: `nth`, `skip`, `step_by`, `last`, `count` on fresh
     // iterators must hand out the corresponding items of the plain iteration (seed C07-9: an `nth` override that left the
     // padding of skipped entries in the stream). Compared only when the plain iteration met no error item.
-    if !runs.iter().any(|(c, _)| *c == 'e') {
+    // … and handed out every header file: an iteration that a trailer ended early is not fused (`next()` after that `None`
+    // goes on reading, Model/FileIter.lean), so "the rest after nth" is not defined by the plain iteration there.
+    if !runs.iter().any(|(c, _)| *c == 'e') && k + 16 == cap {
         if let Some(which) = adapters_differ(pkg, k) {
             return format!("adapters-differ:{}", which);
         }
@@ -281,12 +285,18 @@ fn files_op(a: &[&str]) -> Option<String> {
     if pkg.write(&mut bytes).is_err() {
         return Some("err-write".into());
     }
+    // the UN-REPARSED value `build()` returned is iterated as well: it must hand out what its written and re-parsed form does
+    let mem = observe(&pkg, is_none);
     drop(pkg);
     let pkg = match rpm::Package::parse(&mut &bytes[..]) {
         Ok(p) => p,
         Err(_) => return Some("err-parse".into()),
     };
-    Some(observe(&pkg, is_none))
+    let re = observe(&pkg, is_none);
+    if mem != re {
+        return Some(format!("mem-differs {}", mem));
+    }
+    Some(re)
 }
 
 fn filesraw_op(bytes: &[u8]) -> String {
@@ -317,6 +327,39 @@ fn cpio_entry(magic: &[u8], name_with_nul: &[u8], ino: u32, mode: u32, nlink: u3
     }
     v.extend_from_slice(name_with_nul);
     while v.len() % 4 != 0 { v.push(0); }
+    v.extend_from_slice(data);
+    while v.len() % 4 != 0 { v.push(0); }
+    v
+}
+/// one 8-character numeric field in another spelling `u32::from_str_radix(_, 16)` accepts: 0 = `{:08x}` (what every writer
+/// emits), 1 = upper-case digits, 2 = a leading `+` and 7 digits (values below 16^7), 3 = both
+fn field(x: u32, style: u8) -> String {
+    match style {
+        1 => format!("{:08X}", x),
+        2 if x < (1 << 28) => format!("+{:07x}", x),
+        3 if x < (1 << 28) => format!("+{:07X}", x),
+        3 => format!("{:08X}", x),
+        _ => format!("{:08x}", x),
+    }
+}
+/// `cpio_entry` with the numeric fields spelled in `style` and, optionally, a `filesize` field that is NOT the length of the data
+/// that follows (`declared`)
+fn cpio_entry_styled(magic: &[u8], name_with_nul: &[u8], ino: u32, mode: u32, data: &[u8], check: u32, style: u8, declared: Option<u32>) -> Vec<u8> {
+    let mut v = Vec::new();
+    v.extend_from_slice(magic);
+    for x in [ino, mode, 0, 0, 1, 0, declared.unwrap_or(data.len() as u32), 0, 0, 0, 0, name_with_nul.len() as u32, check] {
+        v.extend_from_slice(field(x, style).as_bytes());
+    }
+    v.extend_from_slice(name_with_nul);
+    while v.len() % 4 != 0 { v.push(0); }
+    v.extend_from_slice(data);
+    while v.len() % 4 != 0 { v.push(0); }
+    v
+}
+fn stripped_entry_styled(idx: u32, data: &[u8], style: u8) -> Vec<u8> {
+    let mut v = b"07070X".to_vec();
+    v.extend_from_slice(field(idx, style).as_bytes());
+    v.extend_from_slice(&[0, 0]);
     v.extend_from_slice(data);
     while v.len() % 4 != 0 { v.push(0); }
     v
@@ -388,6 +431,10 @@ fn foreign_pkg(files: &[FFile], long_sizes: bool, archive: &[u8]) -> Vec<u8> {
     assemble(&lead, &GHeader::new(), 0, &h, archive)
 }
 
+/// family 16 of the foreign packages (an archive entry whose own `filesize` differs from the size the rpm header records): the
+/// iterator hands such entries out with the length of the ARCHIVE and the metadata of the HEADER, which the property's
+/// "its length equals the recorded size" does not allow (class `recorded-size-disagrees`, C07 `recorded_size_not_compared_witness`)
+const SIZE_DISAGREE_CASES: bool = true;
 const SIZES: [usize; 11] = [0, 1, 2, 3, 4, 5, 7, 8, 4095, 4096, 70000];
 const SMALL: [usize; 8] = [0, 1, 2, 3, 4, 5, 7, 8];
 
@@ -459,7 +506,22 @@ fn levels(ctx: &Ctx) -> Vec<String> {
     v
 }
 
+/// corpus/C07/*.case: witnesses kept from earlier runs (one request per line), always run first (by shard 0)
+fn corpus_requests() -> Vec<String> {
+    let mut v: Vec<_> = std::fs::read_dir("corpus/C07")
+        .map(|d| d.filter_map(|e| e.ok()).map(|e| e.path()).filter(|p| p.extension().map(|x| x == "case").unwrap_or(false)).collect())
+        .unwrap_or_default();
+    v.sort();
+    v.iter()
+        .filter_map(|p| std::fs::read_to_string(p).ok())
+        .flat_map(|s| s.lines().map(|l| l.split(" => ").next().unwrap_or("").trim().to_string()).filter(|l| !l.is_empty() && !l.starts_with('#')).collect::<Vec<_>>())
+        .collect()
+}
+
 pub fn gen(ctx: &mut Ctx) {
+    if ctx.shard.0 == 0 && SIZE_DISAGREE_CASES {
+        for r in corpus_requests() { ctx.req(&r); }
+    }
     // every shard walks the same deterministic case list (seeded by --seed only) and keeps its share
     let mut rng = Rng::new(ctx.seed ^ 0xC07);
     let thorough = ctx.thorough;
@@ -729,6 +791,61 @@ pub fn gen(ctx: &mut Ctx) {
             ar.extend(cpio_trailer());
             e.raw(&foreign_pkg(&fs, true, &ar));
         }
+        // 14. numeric fields in the other spellings `u32::from_str_radix(_, 16)` ACCEPTS (upper-case digits, a leading `+`): the
+        //     entries are as good as any; sizes 10..15 and 171 put letters into the filesize field, the modes into c_mode
+        for style in [1u8, 2, 3] {
+            let mut fs = files.clone();
+            for (i, f) in fs.iter_mut().enumerate() { f.data = content_of('p', round as u64 + i as u64, [10usize, 11, 12, 13, 14, 15, 171, 0xabc][rng.below(8) as usize]); }
+            let mut ar = Vec::new();
+            for (i, f) in fs.iter().enumerate() {
+                let mut name = f.cpio_name();
+                name.push(0);
+                ar.extend(cpio_entry_styled(b"070701", &name, 0xA + i as u32, f.mode as u32, &f.data, 0, style, None));
+            }
+            ar.extend(cpio_trailer());
+            e.raw(&foreign_pkg(&fs, false, &ar));
+            // stripped entries with the index spelled that way
+            let mut ar = Vec::new();
+            for (i, f) in fs.iter().enumerate() { ar.extend(stripped_entry_styled(i as u32, &f.data, style)); }
+            ar.extend(stripped_entry(u32::MAX, &[]));
+            e.raw(&foreign_pkg(&fs, true, &ar));
+        }
+        // 15. c_namesize = 00001000 (4096, the reader's limit): a short name padded with NULs up to 4096 bytes, and a real
+        //     4095-byte name; 00001001 is the `name too long` junk of 13.
+        {
+            let mut ar = Vec::new();
+            for (i, f) in files.iter().enumerate() {
+                let mut name = f.cpio_name();
+                if i == 0 { name.resize(4096, 0); } else { name.push(0); }
+                ar.extend(cpio_entry(b"070701", &name, i as u32 + 1, f.mode as u32, 1, &f.data, 0));
+            }
+            ar.extend(cpio_trailer());
+            e.raw(&foreign_pkg(&files, false, &ar));
+            let mut fs = files.clone();
+            fs[0].dir = b"/".to_vec();
+            fs[0].base = (0..4093).map(|j| b'a' + (j % 26) as u8).collect();
+            let mut ar = Vec::new();
+            for (i, f) in fs.iter().enumerate() { ar.extend(entry(b"070701", f, i, 0)); }
+            ar.extend(cpio_trailer());
+            e.raw(&foreign_pkg(&fs, false, &ar));
+        }
+        // 16. the cpio header's `filesize` DISAGREES with the size the rpm header records for the file (FILESIZES / digest are those
+        //     of the content the package means; the archive entry carries fewer / more bytes and says so in its own header)
+        if SIZE_DISAGREE_CASES && round % 4 == 1 {
+            for longer in [false, true] {
+                let d = rng.below(nf as u64) as usize;
+                let mut ar = Vec::new();
+                for (i, f) in files.iter().enumerate() {
+                    let mut g = f.clone();
+                    if i == d {
+                        if longer { g.data.extend_from_slice(b"+more"); } else if !g.data.is_empty() { let l = g.data.len(); g.data.truncate(l - 1 - rng.below(l as u64) as usize); } else { g.data = b"x".to_vec(); }
+                    }
+                    ar.extend(entry(b"070701", &g, i, 0));
+                }
+                ar.extend(cpio_trailer());
+                e.raw(&foreign_pkg(&files, false, &ar));
+            }
+        }
         // 13. damaged archives (what `all=` is about: the iterator keeps answering after an error item, from wherever the
         //     failed step left the stream): one junk block that makes `Reader::new` fail on a known path — and is exactly
         //     as long as what that path consumes, so the entries behind it are found again —, an unknown entry whose data
@@ -754,6 +871,11 @@ pub fn gen(ctx: &mut Ctx) {
                 hdr(0, 0),                                                                        // name length 0
                 { let mut v = hdr(4, 0); v.extend_from_slice(b"abcd"); v },                       // name not NUL-terminated
                 { let mut v = hdr(4, 0); v.extend_from_slice(&[0xff, 0xfe, b'a', 0]); v },        // name not UTF-8
+                // the same field in spellings `from_str_radix` REFUSES: a sign it does not take, a second sign, a prefix, blanks,
+                // a byte that is not UTF-8 (8 bytes each, so the entries behind are found again as for `0000000g`)
+                { let mut v = hdr(2, 0); v.truncate(6 + 8 * k); v.extend_from_slice([&b"-0000001"[..], b"+-000001", b"++000001", b"0x000001", b" 0000001", b"0000001 ", b"+       ", b"\xff0000001"][rng.below(8) as usize]); v },
+                b"07070X0000000A\0\0".to_vec(),                                                   // stripped index 10 in upper case: beyond the header
+                b"07070X-0000001".to_vec(),                                                       // stripped entry, a sign that is refused
                 b"07070X0000ffff\0\0".to_vec(),                                                   // stripped index beyond the header
                 b"07070X000000zz".to_vec(),                                                       // stripped entry, bad hex
                 { let mut v = hdr(4, 0); v.extend_from_slice(b"abcd"); v.push(b'!'); v },         // one byte more than consumed
